@@ -36,7 +36,7 @@ func ugcAttrAllowed(n, k string) bool {
 
 func checkUGCNode(where, n string, attrs []Attr) []Finding {
 	var fs []Finding
-	ln := strings.ToLower(n)
+	ln := asciiLower(n)
 	if c04Forbidden[ln] {
 		fs = append(fs, Finding{"C04", "forbidden:" + ln, fmt.Sprintf("%s: <%s> element in UGCPolicy output", where, n)})
 	}
@@ -45,7 +45,7 @@ func checkUGCNode(where, n string, attrs []Attr) []Finding {
 		return fs
 	}
 	for _, a := range attrs {
-		lk := strings.ToLower(a.K)
+		lk := asciiLower(a.K)
 		switch {
 		case strings.HasPrefix(lk, "on"):
 			fs = append(fs, Finding{"C04", "handler:" + lk, fmt.Sprintf("%s: event-handler attribute %s on <%s>", where, a.K, n)})
